@@ -4,6 +4,7 @@ package lz4
 
 import (
 	"errors"
+	"fmt"
 	"io"
 )
 
@@ -66,18 +67,26 @@ func (s *hSink) Write(p []byte) (int, error) {
 // 2: returns the last bytes together with io.EOF; 3: a zero-length read (0, nil) before each
 // chunk, chunks of at most 2 bytes. Fails at the failAt-th call (0-based; <0 never).
 type hSource struct {
-	data   []byte
-	pos    int
-	calls  int
-	failAt int
-	mode   int
-	zero   bool
+	data    []byte
+	pos     int
+	calls   int
+	failAt  int
+	mode    int
+	zero    bool
+	failErr error // nil: hErrInjected
 }
+
+// hErrWrapsEOF: a source failure that wraps io.EOF (a transport reporting "connection ended: EOF"):
+// still a failure, never a clean end.
+var hErrWrapsEOF = fmt.Errorf("verif: link down: %w", io.EOF)
 
 func (s *hSource) Read(p []byte) (int, error) {
 	i := s.calls
 	s.calls++
 	if i == s.failAt {
+		if s.failErr != nil {
+			return 0, s.failErr
+		}
 		return 0, hErrInjected
 	}
 	if len(p) == 0 {
@@ -151,6 +160,21 @@ func (o hOpts) options() []Option {
 func hInput() []byte {
 	n := vfParam("n")
 	period := vfParam("period")
+	if period == -65536 {
+		// concrete incompressible bytes with an exact 64 KiB period: the only redundancy sits at
+		// distance 65536, one more than an offset can express
+		in := make([]byte, n)
+		x := uint32(12345)
+		for i := range in {
+			if i >= 65536 {
+				in[i] = in[i-65536]
+				continue
+			}
+			x = x*1664525 + 1013904223
+			in[i] = byte(x >> 24)
+		}
+		return in
+	}
 	if period < 0 {
 		// concrete content (used where symbolic content would only pose hash-collision searches, and
 		// for block-size inputs); period <= -1000: the last two bytes are symbolic
